@@ -213,3 +213,61 @@ def render(f):
          'Definition cli_none_code : N := %s.' % f['cli_none_code'],
          'Definition cli_other_code : N := %s.' % f['cli_other_code']]
     return '\n'.join(L) + '\n'
+
+
+# ---------------------------------------------------------------- whole-body anchors (see gen_frames.py)
+import json
+import os
+from gen_frames import check_bodies, mask_codes, _block, _sub_source
+
+BODIES_SNAPSHOT = os.path.join(os.path.dirname(os.path.abspath(__file__)), 'snapshots', 'GenReqStream.bodies.json')
+
+
+def req_bodies(repo):
+    b = {}
+    cn = Source(repo + '/h3/src/connection.rs')
+    s = mask_codes(squeeze(cn.fn_body('poll_recv_data')[0]))
+    s = re.sub(r'^(while|if)!self\.stream\.has_data\(\)', 'LOOP!self.stream.has_data()', s)
+    s = re.sub(r'Ok\(Some\(Frame::Data\{\.\.\}\)\)=>(\(\)|returnPoll::Ready\(Ok\(None\)\)),', 'Ok(Some(Frame::Data{..}))=>DATAARM,', s)
+    b['poll_recv_data'] = s
+    b['poll_recv_trailers'] = mask_codes(squeeze(cn.fn_body('poll_recv_trailers')[0]))
+    b['struct RequestStream'] = _block(cn, r'pub\s+struct\s+RequestStream<S,\s*B>\s*\{')
+    blk, _, _ = cn.item_block(r'impl<S,\s*B>\s+RequestStream<S,\s*B>\s*(?=\{\s*#\[allow\(missing_docs\)\]\s*pub\s+fn\s+new)')
+    b['RequestStream::new'] = squeeze(blk)
+    m = re.search(r'pub\(crate\)\s+fn\s+split\s*\(\s*self\s*,?\s*\)\s*->\s*\(\s*RequestStream', cn.text)
+    if not m:
+        raise AnchorLost('connection::RequestStream::split')
+    b['RequestStream::split'] = squeeze(_sub_source(cn, cn.text[m.start():]).fn_body('split')[0])
+    rq = Source(repo + '/h3/src/server/request.rs')
+    b['resolve_request'] = squeeze(rq.fn_body('resolve_request')[0])
+    b['accept_with_frame'] = mask_codes(squeeze(rq.fn_body('accept_with_frame')[0]))
+    b['struct RequestResolver'] = _block(rq, r'pub\s+struct\s+RequestResolver<C,\s*B>')
+    sc = Source(repo + '/h3/src/server/connection.rs')
+    b['server accept'] = squeeze(sc.fn_body('accept')[0])
+    b['create_resolver_internal'] = squeeze(sc.fn_body('create_resolver_internal')[0])
+    ss = Source(repo + '/h3/src/server/stream.rs')
+    b['server RequestStream'] = _block(ss, r'pub\s+struct\s+RequestStream<S,\s*B>\s*\{')
+    for fn in ('recv_data', 'poll_recv_data', 'recv_trailers', 'poll_recv_trailers', 'split'):
+        b['server ' + fn] = squeeze(ss.fn_body(fn)[0])
+    cl = Source(repo + '/h3/src/client/stream.rs')
+    b['client RequestStream'] = _block(cl, r'pub\s+struct\s+RequestStream<S,\s*B>\s*\{')
+    b['recv_response'] = mask_codes(squeeze(cl.fn_body('recv_response')[0]))
+    for fn in ('recv_data', 'poll_recv_data', 'recv_trailers', 'poll_recv_trailers', 'split'):
+        b['client ' + fn] = squeeze(cl.fn_body(fn)[0])
+    return b
+
+
+_extract_facts = extract
+
+
+def extract(repo):
+    f, spans = _extract_facts(repo)
+    check_bodies('gen_reqstream', req_bodies(repo), BODIES_SNAPSHOT)
+    return f, spans
+
+
+if __name__ == '__main__':
+    import sys
+    if len(sys.argv) > 2 and sys.argv[1] == '--snapshot-bodies':
+        json.dump(req_bodies(sys.argv[2]), open(BODIES_SNAPSHOT, 'w'), indent=1, sort_keys=True)
+        print('written', BODIES_SNAPSHOT)
